@@ -314,26 +314,37 @@ def judge(cx, kind, ver, r, s, igns, simv, chv, sim_dbpm, ch_dbpm, route=0, none
     evals = 0
 
     if do_td:
-        if chart is None:
-            td = cx.TimingData(sim) if none_form == 0 else cx.TimingData(sim, None)
-        else:
-            td = cx.TimingData(sim, chart)
-        evals += 1
-        for attr, key in LISTS:
-            got = [(F(e.beat), e.value) for e in getattr(td, attr)]
-            exp = parse_list(src.get(key))
-            if got != exp:
+      # the second pass reads the same source again after the first object's lists were edited in place: every TimingData
+      # owns its lists (nothing shared between objects, nothing remembered per string)
+      for again in ((False, True) if (s + r + ver) % 3 == 0 else (False,)):
+            if chart is None:
+                td = cx.TimingData(sim) if none_form == 0 else cx.TimingData(sim, None)
+            else:
+                td = cx.TimingData(sim, chart)
+            evals += 1
+            for attr, key in LISTS:
+                got = [(F(e.beat), e.value) for e in getattr(td, attr)]
+                exp = parse_list(src.get(key))
+                if got != exp:
+                    raise Violation(
+                        f"TimingData.{attr} = {got!r}, expected {exp!r} (all fields from the {'chart' if use_chart else 'simfile'}); "
+                        f"configuration: {describe(kind, ver, r, s, 0)}; simfile {sim_pairs!r}; chart {ch_pairs!r}"
+                    )
+            off = src.get("OFFSET")
+            exp_off = D(off) if off else D(0)
+            if not (isinstance(td.offset, D) and td.offset == exp_off):
                 raise Violation(
-                    f"TimingData.{attr} = {got!r}, expected {exp!r} (all fields from the {'chart' if use_chart else 'simfile'}); "
+                    f"TimingData.offset = {td.offset!r}, expected {exp_off!r} from the {'chart' if use_chart else 'simfile'}; "
                     f"configuration: {describe(kind, ver, r, s, 0)}; simfile {sim_pairs!r}; chart {ch_pairs!r}"
                 )
-        off = src.get("OFFSET")
-        exp_off = D(off) if off else D(0)
-        if not (isinstance(td.offset, D) and td.offset == exp_off):
-            raise Violation(
-                f"TimingData.offset = {td.offset!r}, expected {exp_off!r} from the {'chart' if use_chart else 'simfile'}; "
-                f"configuration: {describe(kind, ver, r, s, 0)}; simfile {sim_pairs!r}; chart {ch_pairs!r}"
-            )
+            if not again:
+                from simfile.timing import Beat, BeatValue
+
+                for attr, _key in LISTS:
+                    lst = getattr(td, attr)
+                    lst.append(BeatValue(Beat(999), D("9.5")))
+                    if len(lst) > 1:
+                        del lst[0]
 
     # ---- displayed BPM (only where the chosen source has a non-empty BPMS: the property's quantifier; a blank-only
     # BPMS holds no BPM at all and is left out as well)
